@@ -19,9 +19,9 @@ Proof.
   - destruct (py_int s); [|discriminate]. inversion V as [E]. split; reflexivity.
   - destruct (py_int s); [|discriminate]. inversion V as [E]. split; reflexivity.
   - destruct (py_float s) as [f|] eqn:Ef; [|discriminate]. inversion V as [E]. split; [|reflexivity].
-    cbn [const_ok]. apply fnorm_b_spec. apply (py_float_norm s f Ef).
+    cbn [const_ok]. rewrite Hs, andb_true_r. apply fnorm_b_spec. apply (py_float_norm s f Ef).
   - destruct (py_float s) as [f|] eqn:Ef; [|discriminate]. inversion V as [E]. split; [|reflexivity].
-    cbn [const_ok]. apply fnorm_b_spec. apply (py_float_norm s f Ef).
+    cbn [const_ok]. rewrite Hs, andb_true_r. apply fnorm_b_spec. apply (py_float_norm s f Ef).
   - rewrite mk_hex_rep in V. destruct (prefixed_body 104 s) as [b|]; [|discriminate].
     destruct (hex_pairs b) eqn:C; [|discriminate]. inversion V as [E]. split; [exact C|reflexivity].
   - unfold mk_binary_from_tree in V. destruct (prefixed_body 98 s) as [b|]; [|discriminate].
@@ -291,7 +291,7 @@ Proof.
     destruct n as [k s]. cbn [tk] in Hk. destruct k; cbn in Hk; try discriminate.
     + rewrite (sv_lit_intpos_nonneg (Tok KIntPos s)); [reflexivity|]. apply kind_in_make; [reflexivity|exact Hok].
     + assert (Kp : kind_in (Tok KFloatPos s) primitive_kinds = true) by (apply kind_in_make; [reflexivity|exact Hok]).
-      destruct (sv_lit_ok (Tok KFloatPos s) Kp eq_refl) as [O _].
+      destruct (sv_lit_ok (Tok KFloatPos s) Kp Hs) as [O _].
       unfold token_ok in Hok. cbn [tk tx] in Hok. destruct (py_float_floatpos s Hok) as [f Hf].
       assert (E : sv_lit (Tok KFloatPos s) = CFloat f) by (unfold sv_lit, PatternSyntax.visit_terminal; cbn [tk tx]; rewrite Hf; reflexivity).
       rewrite E in O |- *. cbn [pos_float nonneg_int orb]. rewrite O, (py_float_floatpos_sign s f Hok Hf). reflexivity.
